@@ -18,7 +18,7 @@ type liveUpload struct {
 func VH_C14b() {
 	h, _ := newMemServer()
 	vsym.Assert(Do(h, Req{Method: "PUT", Path: "/bkt"}).Code() == 200, "C14b/create-bucket")
-	keys := []string{"a/x", "a/y", "b"}
+	keys := []string{"0", "a/x", "a/y", "b"} // a key before the common prefix a/, two under it, one after
 	var live []liveUpload
 	steps := vsym.Param("steps", 3)
 	seq := 0
